@@ -69,3 +69,34 @@ Theorem C08_emit_safe :
     | RFault _ => False
     end.
 Proof. exact emit_safe. Qed.
+
+(* make_tree() and the table-driven prefix decoding (start[]/base[]/count[]/perm[]): for every
+   length vector the delta reader can deliver (3..258 lengths in 1..20), whatever the previous
+   contents of the tables: no out-of-bounds access, no undefined shift, no assertion failure; the
+   verdict is exactly the Kraft test of the abstract decoder; and for a complete table, every
+   64-bit buffer value with bit 0 clear (NEED() keeps at most 63 valid bits) decodes without any
+   bad index to exactly the symbol and length of canonical bit-by-bit decoding *)
+From LBZ Require Import Safe.TreeModel Safe.TreeProofs Dec.Policies.
+
+Theorem C08_make_tree_safe :
+  forall lens pad T, tree_pre lens pad T ->
+    exists vd T', make_tree (N.of_nat (length lens)) (lens ++ pad) T = Done (vd, T') /\ tree_wf T'.
+Proof. exact make_tree_safe. Qed.
+
+Theorem C08_make_tree_verdict_is_kraft :
+  forall lens pad T vd T', tree_pre lens pad T ->
+    make_tree (N.of_nat (length lens)) (lens ++ pad) T = Done (vd, T') ->
+    verdict_result vd = complete_only lens.
+Proof. exact make_tree_verdict_policy. Qed.
+
+Theorem C08_table_decode_safe_and_canonical :
+  forall lens pad T T' v, tree_pre lens pad T ->
+    make_tree (N.of_nat (length lens)) (lens ++ pad) T = Done (VBuilt, T') ->
+    (v < 2 ^ 64 - 1)%N ->
+    exists a k rest,
+      tree_decode (N.of_nat (length lens)) T' v =
+        Done (isym (N.of_nat (length lens)) a, N.of_nat k, ((v * 2 ^ N.of_nat k) mod 2 ^ 64)%N) /\
+      (1 <= k <= 20)%nat /\ (a < N.of_nat (length lens))%N /\
+      run (decode_sym lens) (bits_msb 64 v) = Ok (a, rest) /\
+      rest = bits_msb (64 - k) v /\ length rest = (64 - k)%nat.
+Proof. exact tree_decode_correct. Qed.
